@@ -10,6 +10,9 @@ pub mod c07;
 pub mod c08;
 pub mod c09;
 pub mod c13;
+pub mod c15;
+pub mod c16;
+pub mod c17;
 pub mod c12;
 
 #[derive(Clone, Copy, PartialEq, Eq, Debug)]
@@ -40,8 +43,16 @@ pub fn checks(id: &str, tier: Tier) -> Option<Vec<Check>> {
         "C09" => Some(c09::checks(tier)),
         "C12" => Some(c12::checks(tier)),
         "C13" => Some(c13::checks(tier)),
+        "C15" => Some(c15::checks(tier)),
+        "C16" => Some(c16::checks(tier)),
+        "C17" => Some(c17::checks(tier)),
         _ => None,
     }
+}
+
+/// the oracle that applies to any request (dispatch on the op): used by stream-style checks
+pub fn oracle_any(req: &crate::req::Req, got: &crate::req::Resp) -> Result<(), String> {
+    crate::mops::oracle(req, got)
 }
 
 pub fn labels32(chunks: &[&[u8]]) -> Vec<&'static str> {
